@@ -67,24 +67,27 @@ mod private {
 
     thread_local! {
         pub static DL: DamerauLevenshtein = DamerauLevenshtein::new();
+        pub static DL_ANY: DamerauLevenshtein = DamerauLevenshtein::new();
         pub static JC: Jaccard<char> = Jaccard::new();
     }
 
     /// All laws of C16 for one ordered pair; `deep` also compares every prefix cell.
-    pub fn check_distance(cx: &mut Cx, c1: &[char], c2: &[char], deep: bool) {
+    pub fn check_distance(cx: &mut Cx, dl: Option<&DamerauLevenshtein>, c1: &[char], c2: &[char], deep: bool) {
+        // `dl`: the long-lived instance whose history matters (None = this thread's shared instance)
+        macro_rules! with_dl { ($f:expr) => { match dl { Some(d) => $f(d), None => DL.with(|d| $f(d)) } } }
         let t1 = classed(c1);
         let t2 = classed(c2);
         cx.ctx(format!("C16 {:?} {:?}", s(c1), s(c2)));
-        let d12 = DL.with(|d| d.distance(&t1.view(0), &t2.view(0)));
+        let d12 = with_dl!(|d: &DamerauLevenshtein| d.distance(&t1.view(0), &t2.view(0)));
         let cells: Vec<Vec<f64>> = if deep {
-            DL.with(|d| {
+            with_dl!(|d: &DamerauLevenshtein| {
                 let m = d.dists.borrow();
-                (0..=c1.len()).map(|i| (0..=c2.len()).map(|j| m.get(i + 1, j + 1)).collect()).collect()
+                (0..=c1.len()).map(|i| (0..=c2.len()).map(|j| m.get(i + 1, j + 1)).collect::<Vec<f64>>()).collect::<Vec<Vec<f64>>>()
             })
         } else {
             vec![]
         };
-        let d21 = DL.with(|d| d.distance(&t2.view(0), &t1.view(0)));
+        let d21 = with_dl!(|d: &DamerauLevenshtein| d.distance(&t2.view(0), &t1.view(0)));
         let fresh = DamerauLevenshtein::new().distance(&t1.view(0), &t2.view(0));
         cx.eval();
         let l = oracle::lev(c1, c2) as f64;
@@ -110,7 +113,7 @@ mod private {
         }
         let a1 = word_text(c1, &vec![CharClass::Any; c1.len()]);
         let a2 = word_text(c2, &vec![CharClass::Any; c2.len()]);
-        let dn = DL.with(|d| d.distance(&a1.view(0), &a2.view(0)));
+        let dn = DL_ANY.with(|d| d.distance(&a1.view(0), &a2.view(0)));
         if d12 > dn {
             errs.push("discount-raised-distance".into());
         }
@@ -124,14 +127,14 @@ mod private {
             // long words (beyond the initial capacity, after growth): a sample of prefix cells
             let k1: Vec<CharClass> = c1.iter().map(|c| class_of(*c)).collect();
             let k2: Vec<CharClass> = c2.iter().map(|c| class_of(*c)).collect();
-            let d_again = DL.with(|d| d.distance(&t1.view(0), &t2.view(0)));
+            let d_again = with_dl!(|d: &DamerauLevenshtein| d.distance(&t1.view(0), &t2.view(0)));
             if d_again != d12 {
                 errs.push("repeat-differs".into());
             }
             for _ in 0..12 {
                 let i = cx.rng.below(c1.len() + 1);
                 let j = cx.rng.below(c2.len() + 1);
-                let cell = DL.with(|d| d.dists.borrow().get(i + 1, j + 1));
+                let cell = with_dl!(|d: &DamerauLevenshtein| d.dists.borrow().get(i + 1, j + 1));
                 let p1 = word_text(&c1[..i], &k1[..i]);
                 let p2 = word_text(&c2[..j], &k2[..j]);
                 let dp = DamerauLevenshtein::new().distance(&p1.view(0), &p2.view(0));
@@ -465,7 +468,7 @@ impl Prop for Prims {
                 let words = all_words(&alpha, 4);
                 let w1 = &words[idx as usize % words.len()];
                 for w2 in &words {
-                    private::check_distance(cx, w1, w2, true);
+                    private::check_distance(cx, None, w1, w2, true);
                     if cx.viols.len() >= 50 {
                         break;
                     }
@@ -475,6 +478,12 @@ impl Prop for Prims {
             #[cfg(lucid_suggest_verif)]
             (Which::Distance, "random") => {
                 let alpha: Vec<char> = cv("aeiobcdf19xж");
+                // half of the cases run their whole call history on an instance of their own, so that
+                // growth steps (22 -> 34 -> 52 -> 79) are crossed thousands of times with different pasts
+                let own = if cx.rng.chance(1, 2) { Some(DamerauLevenshtein::new()) } else { None };
+                if own.is_some() {
+                    cx.count("random cases on an instance of their own");
+                }
                 for step in 0..6 {
                     let k = cx.rng.range(2, alpha.len());
                     let long = (step + idx as usize) % 2 == 0;
@@ -494,7 +503,7 @@ impl Prop for Prims {
                         }
                     };
                     let deep = c1.len() <= 10 && c2.len() <= 10;
-                    private::check_distance(cx, &c1, &c2, deep);
+                    private::check_distance(cx, own.as_ref(), &c1, &c2, deep);
                     if c1.len().max(c2.len()) > 20 {
                         cx.count("random pairs beyond capacity 20");
                     }
